@@ -5506,6 +5506,12 @@ def round5_rules(ctx):
             ctx._ob(not bad, ctx.sample('must-pass', f, sr[0].line, 'Err from splice_run => poison'))
             if bad:
                 ctx.violate('must-pass|%s|splice-error-not-poisoned' % f.path, 'splice_open_run can return the error of splice_run without poisoning the cursor: the transaction could commit a half-applied retain / extract', f, sr[0].line)
+    f = ctx.fn('CursorMut::finish_pending_removals')
+    if f is not None:
+        so = ctx.sites(f, 'CursorMut::splice_open_run', exact=1)
+        cl = ctx.sites(f, 'CursorMut::close_current_leaf', exact=1)
+        ctx.must_pass(f, so, exits='success', what='finishing the pending removals always splices the run left open')
+        ctx.guarded(f, so, [ok('CursorMut::check_not_poisoned')], 'nothing is applied by a poisoned cursor')
     # --- subtree trees of a multimap are keyed by the VALUE type
     ctx.set_rule('C12.R8', 'every tree built for a multimap value subtree uses the value width as its key width (sibling agreement in multimap_btree.rs)')
     n = 0
